@@ -28,14 +28,16 @@ TRACE_PLANS = {
             ("solve:cyclic,locks,excl,unknown", 150, 2500, "hints", True)],
     "C04": [("solve:hintexcl,selfcons,softlone", 250, 6000, "", False),
             ("solve:cyclic,excl,locks,unknown,soft,softhints", 120, 4000, "hints", False),
-            ("solve:midconflict,base", 120, 4000, "asynchints", False)],
+            ("solve:midconflict,base", 120, 4000, "asynchints", False),
+            ("solve:softconflict", 300, 6000, "", False)],
     "C05": [("solve:midconflict,conflict,direct", 250, 4000, "", True),
             ("solve:base,cyclic", 200, 3000, "hints", True)],
     "C07": [("solve:clean", 500, 8000, "hints,async,perm", False)],
     "C08": [("solve:direct", 400, 8000, "act,hints", False)],
     "C09": [("solve:clean,base,unknown", 300, 5000, "", False),
             ("history:base,clean", 150, 3000, "", False)],
-    "C14": [("solve:soft", 500, 8000, "", True),
+    "C14": [("solve:softconflict", 300, 5000, "", True),
+            ("solve:soft", 500, 8000, "", True),
             ("solve:softhints", 250, 4000, "", True)],
 }
 
